@@ -880,6 +880,33 @@ def run_rules(chk, progs=None, limit=None):
                     if mismatches <= 12:
                         chk.ob(rule, pid, False, res, "include/librfn/protothreads.h", "PT_* macros")
                         chk.sample({"program": [t.strip() for t in text], "verdict": "MISMATCH", "detail": res})
+    # V1.high-line: the same validation for bodies whose blocking points sit at source lines above 32767 and above 60000 (generated
+    # or amalgamated sources): the saved state must still select its own resume point - a state cell that is signed or narrower
+    # than the line number turns such a resume into the default arm
+    for base in (32760, 60000):
+        batch = progs[:24]
+        src, asts = c_source(batch, False)
+        lines_ = src.split("\n")
+        last_inc = max([k for k, l in enumerate(lines_) if l.startswith("#include")] or [-1])
+        lines_.insert(last_inc + 1, "#line %d" % base)
+        try:
+            m = build.compile_text("c08_hl_%d.c" % base, "\n".join(lines_), inline_except=())
+        except AnalysisError as e:
+            chk.unknown("V1.high-line", "lines from %d" % base, "witness batch does not compile: %s" % str(e)[-300:])
+            continue
+        n_hl = 0
+        for n, (ast, text) in enumerate(asts):
+            fn = m.functions.get("w_%d" % n)
+            pid = "program %d at lines from %d: %s" % (n, base, " ".join(t.strip() for t in text))[:200]
+            try:
+                res, stats = compare(fn, ast, 0)
+            except Unmodelled as u:
+                chk.unknown("V1.high-line", pid, "IR construct outside the control-automaton fragment: %s" % u)
+                continue
+            n_hl += 1
+            chk.ob("V1.high-line", pid, res is None, "%d state pairs, %d events compared" % (stats["pairs"], stats["events"])
+                   if res is None else res, "include/librfn/protothreads.h", "PT_* macros")
+        chk.expect("V1.high-line", "programs validated at lines from %d" % base, n_hl, 20)
     if mismatches > 12:
         chk.ob("V1.bisimilar", "further mismatching programs", False, "%d more programs disagree (not listed)" % (mismatches - 12),
                "include/librfn/protothreads.h", "PT_* macros")
